@@ -8,6 +8,14 @@
 (*                                                                         *)
 (* One action per step of the spawned task; requests of one session are    *)
 (* separate streams whose steps interleave freely (HTTP/2) .               *)
+(*                                                                         *)
+(* Request streams that the client has already ended (HTTP/2 END_STREAM /  *)
+(* HTTP/3 FIN on the HEADERS frame): the answer of a TCP CONNECT or a      *)
+(* health check does not depend on it (replayed over HTTP/3 with FIN on    *)
+(* every other CONNECT).  Named tolerance ClientEndedMux: a multiplexer    *)
+(* request whose client side has ended has nothing to multiplex; the       *)
+(* endpoint may end it at once, and over HTTP/3 the RESET_STREAM it ends a *)
+(* stream with may overtake the 200.                                       *)
 (***************************************************************************)
 EXTENDS Naturals, Sequences, FiniteSets, TLC, TunnelCodes
 
